@@ -7,6 +7,8 @@ package main
 // another language. Used only to confirm refutations.
 
 import (
+	"fmt"
+	"sort"
 	"strings"
 	"sync"
 )
@@ -82,6 +84,35 @@ type vrObj interface {
 func vrQueries(o vrObj, extra func() string) string {
 	e, err := o.Encode()
 	return fmt.Sprintf("score=%v err=%v enc=%q encerr=%v str=%q %s", o.Score(), o.GetError() != nil, e, err != nil, o.String(), extra())
+}
+
+// results of every level for fresh objects, one line per vector; run in two processes with opposite orders and compared
+// by the caller: "what a decode or query returns for a given vector does not depend on what the process decoded before"
+func vrHistory(order []string) {
+	for _, v := range order {
+		b, t2, e := NewBase(), NewTemporal(), NewEnvironmental()
+		rb, rt, re := "rejected", "rejected", "rejected"
+		if _, err := b.Decode(v); err == nil {
+			rb = vrQueries(b, func() string { return fmt.Sprint(b.Severity()) })
+		}
+		if _, err := t2.Decode(v); err == nil {
+			rt = vrQueries(t2, func() string { return fmt.Sprint(t2.Severity(), t2.BaseMetrics().Score()) })
+		}
+		if _, err := e.Decode(v); err == nil {
+			re = vrQueries(e, func() string { return fmt.Sprint(e.Severity(), e.BaseMetrics().Score(), e.TemporalMetrics().Score()) })
+		}
+		fmt.Printf("HIST %q => base{%s} temporal{%s} environmental{%s}\n", v, rb, rt, re)
+	}
+}
+
+func TestVerifHistoryA(t *testing.T) { vrHistory(append(append([]string{}, vrVectors...), vrHistVectors...)) }
+
+func TestVerifHistoryB(t *testing.T) {
+	all := append(append([]string{}, vrVectors...), vrHistVectors...)
+	for i, j := 0, len(all)-1; i < j; i, j = i+1, j-1 {
+		all[i], all[j] = all[j], all[i]
+	}
+	vrHistory(all)
 }
 
 func TestVerifPurity(t *testing.T) {
@@ -280,6 +311,22 @@ var vrVectors = []string{
 	"CVSS:3.1/AV:N/AC:L",
 	"CVSS:3.1/AV:N/AC:L/PR:N/UI:N/S:U/C:H/I:H/A:H/E:Z",
 }
+
+// pairs that differ only in the version (the changed-scope environmental polynomial differs between 3.0 and 3.1), in the
+// scope, or in one metric: a result remembered under too coarse a key shows up when the order of the process changes
+var vrHistVectors = []string{
+	"CVSS:3.0/AV:N/AC:L/PR:H/UI:R/S:U/C:H/I:H/A:H/CR:H/IR:H/MS:C",
+	"CVSS:3.1/AV:N/AC:L/PR:H/UI:R/S:U/C:H/I:H/A:H/CR:H/IR:H/MS:C",
+	"CVSS:3.0/AV:L/AC:H/PR:H/UI:R/S:C/C:H/I:H/A:H",
+	"CVSS:3.1/AV:L/AC:H/PR:H/UI:R/S:C/C:H/I:H/A:H",
+	"CVSS:3.1/AV:L/AC:H/PR:H/UI:R/S:U/C:H/I:H/A:H",
+	"CVSS:3.0/AV:L/AC:H/PR:L/UI:R/S:C/C:H/I:H/A:H/E:P/RL:T/RC:R/CR:H/IR:H/AR:H",
+	"CVSS:3.1/AV:L/AC:H/PR:L/UI:R/S:C/C:H/I:H/A:H/E:P/RL:T/RC:R/CR:H/IR:H/AR:H",
+	"CVSS:3.1/AV:L/AC:H/PR:L/UI:R/S:U/C:H/I:H/A:H/E:P/RL:T/RC:R/CR:H/IR:H/AR:H",
+	"CVSS:3.1/AV:N/AC:L/PR:L/UI:N/S:C/C:L/I:L/A:N",
+	"CVSS:3.0/AV:N/AC:L/PR:L/UI:N/S:C/C:L/I:L/A:N/MPR:H",
+	"CVSS:3.1/AV:N/AC:L/PR:L/UI:N/S:U/C:L/I:L/A:N/MS:C/MPR:H",
+}
 ` + purityMetricBody
 
 const purityV2 = `package metric
@@ -290,6 +337,16 @@ var vrVectors = []string{
 	"AV:N/AC:L/Au:N/C:N/I:N/A:C/E:F/RL:OF/RC:C/CDP:H/TD:H/CR:M/IR:M/AR:H",
 	"AV:L/AC:H/Au:S/C:P/I:P/A:C/CDP:LM/TD:M/CR:H/IR:L/AR:H",
 	"AV:N/AC:L/Au:N",
+}
+
+var vrHistVectors = []string{
+	"AV:L/AC:H/Au:S/C:N/I:P/A:P",
+	"AV:L/AC:H/Au:S/C:N/I:P/A:P/CDP:N/TD:H/CR:M/IR:M/AR:M",
+	"AV:L/AC:H/Au:S/C:N/I:P/A:P/CDP:N/TD:H/CR:H/IR:H/AR:H",
+	"AV:L/AC:H/Au:S/C:N/I:P/A:P/E:POC/RL:W/RC:UR",
+	"AV:N/AC:L/Au:N/C:C/I:C/A:C/E:F/RL:OF/RC:C/CDP:H/TD:L/CR:L/IR:L/AR:L",
+	"AV:N/AC:L/Au:N/C:C/I:C/A:C/E:F/RL:OF/RC:C/CDP:H/TD:L/CR:H/IR:H/AR:H",
+	"AV:N/AC:L/Au:N/C:C/I:C/A:C",
 }
 ` + purityMetricBody
 
@@ -379,6 +436,34 @@ func purityProbe(repo, pkgDir string) (string, bool) {
 	}
 	out, err := runOverlayTest(repo, pkgDir, src, "TestVerifPurity")
 	hit := strings.Contains(out, "PURITY-HIT")
+	if !hit && pkgDir != "v3/report" && strings.Contains(out, "PURITY-NONE") {
+		// process history across objects: the same vectors in opposite orders, in two processes
+		hist := func(test string) map[string]string {
+			o, _ := runOverlayTest(repo, pkgDir, src, test)
+			m := map[string]string{}
+			for _, l := range strings.Split(o, "\n") {
+				if strings.HasPrefix(l, "HIST ") {
+					if k := strings.Index(l, " => "); k > 0 {
+						m[l[5:k]] = l[k+4:]
+					}
+				}
+			}
+			return m
+		}
+		a, b := hist("TestVerifHistoryA"), hist("TestVerifHistoryB")
+		var keys []string
+		for k := range a {
+			keys = append(keys, k)
+		}
+		sort.Strings(keys)
+		for _, k := range keys {
+			if rb, ok := b[k]; ok && rb != a[k] {
+				hit = true
+				out = fmt.Sprintf("PURITY-HIT vector %s: what fresh objects return depends on what the process decoded and scored before (the same %d vectors in one process, forwards and backwards)\n  forwards:  %s\n  backwards: %s\n", k, len(keys), a[k], rb)
+				break
+			}
+		}
+	}
 	rep := "purity / history probe on the real code (" + pkgDir + "): objects dumped before and after every query, repeated and reordered queries, queries before Decode, reports across other languages:\n"
 	switch {
 	case hit:
